@@ -17,8 +17,8 @@ def describe(sc):
         if ev[0] == 0:
             out.append([t, "datagram", ev[1], bool(ev[2]), bytes(ev[3]).hex()])
         else:
-            out.append([t, "api", ev[1]])
-    return dict(cfg=list(sc["cfg"]), insts=sc["insts"], draws=sc["draws"], events=out, end=sc["end"], rev=sc["rev"], fuel=sc["fuel"])
+            out.append([t, "api", sexp.dumps(ev[1])])
+    return dict(cfg=list(sc["cfg"]), insts=[[i, sexp.dumps(s), list(r)] for i, s, r in sc["insts"]], draws=sc["draws"], events=out, end=sc["end"], rev=sc["rev"], fuel=sc["fuel"])
 
 
 def undescribe(d):
@@ -27,8 +27,8 @@ def undescribe(d):
         if e[1] == "datagram":
             events.append((e[0], (0, e[2], e[3], bytes.fromhex(e[4]))))
         else:
-            events.append((e[0], (1, e[2])))
-    return dict(cfg=tuple(d["cfg"]), insts=[tuple(i) for i in d["insts"]], draws=d["draws"], events=events, end=d["end"], rev=d["rev"], fuel=d["fuel"])
+            events.append((e[0], (1, sexp.loads(e[2]) if isinstance(e[2], str) else e[2])))
+    return dict(cfg=tuple(d["cfg"]), insts=[(i[0], sexp.loads(i[1]) if isinstance(i[1], str) else i[1], i[2]) for i in d["insts"]], draws=d["draws"], events=events, end=d["end"], rev=d["rev"], fuel=d["fuel"])
 
 
 def shrink(sc, fails):
